@@ -102,8 +102,9 @@ fn copy(a: &[u8]) -> Result<Vec<u8>, String> {
             iw.set_sensor_serial(v);
         }
         for (kind, fmt, data, mask) in parts {
-            let mut d: &[u8] = &data;
-            let mut m: Option<&[u8]> = mask.as_deref();
+            // the copy streams the payloads through sources that hand out short reads (as a decoder or a pipe would)
+            let mut d = crate::gen::Trickle { data: &data, chunk: 1 + data.len() % 977, calls: 0 };
+            let mut m: Option<crate::gen::Trickle> = mask.as_deref().map(|x| crate::gen::Trickle { data: x, chunk: 1 + x.len() % 331, calls: 0 });
             let md: Option<&mut dyn std::io::Read> = m.as_mut().map(|x| x as &mut dyn std::io::Read);
             let r = match (kind, &im.visual_reference, &im.projection) {
                 (0, Some(v), _) => iw.add_visual_reference(fmt, &mut d, v.properties.clone(), md),
